@@ -206,7 +206,7 @@ def random_table_desc(rng, consistent_only=False, allow_built=True, max_nodes=40
         "kind": "synthetic",
         "family": fam,
         "prm": [float(v) for v in rng.random(3)],
-        "n": int(rng.choice([12, 40, 120, max_nodes])),
+        "n": int(rng.choice([12, 40, 120, max_nodes] if consistent_only else [2, 3, 5, 12, 40, 120, max_nodes])),
         "p_lo": float(rng.choice([10.0, 50.0, 200.0])),
         "p_hi": float(rng.choice([5000.0, 9000.0, 12000.0])),
         "grid": str(rng.choice(["uniform", "nonuniform"])),
